@@ -283,3 +283,143 @@ mod header_box {
     path_harness!(c05_hunk_header_path_removed, 1);
     path_harness!(c05_hunk_header_path_added, 2);
 }
+
+// ------------------------------------------------------------------------------------------------
+// Plain `diff -u` input: a removed line whose text starts with "-- " reads "--- ..." and must not
+// be taken for a file header while the hunk still expects removed lines - the counter has to be
+// armed when the hunk header is READ, before the first hunk line is offered to the header
+// handlers (C14 / C01). Real: `handle_hunk_header_line`, `handle_diff_header_minus_line`,
+// `handle_diff_header_plus_line`, the counter. The regex parser of the hunk header (which
+// kani-compiler cannot compile) is replaced by a stub that reads the removed-line count from the
+// digit at a fixed position of the header line.
+mod diff_u {
+    use super::super::*;
+    use crate::delta::Source;
+    use crate::handlers::diff_header::FileEvent;
+    use std::mem::MaybeUninit;
+    use std::ptr::addr_of_mut;
+
+    fn stub_parse_hunk_header(line: &str) -> Option<ParsedHunkHeader> {
+        let n = (line.as_bytes()[6] - b'0') as usize; // "@@ -1,N +1,N @@"
+        let mut v = Vec::with_capacity(2);
+        v.push((1usize, n));
+        v.push((1usize, n));
+        Some(ParsedHunkHeader { code_fragment: String::new(), line_numbers_and_hunk_lengths: v })
+    }
+    fn stub_write_header(_line: &str, _raw_line: &str, _painter: &mut Painter, _mode_info: &mut String, _config: &Config) -> std::io::Result<()> {
+        Ok(())
+    }
+    fn stub_description(_m: &str, _p: &str, _c: bool, _me: &FileEvent, _pe: &FileEvent, _config: &Config) -> String {
+        String::new()
+    }
+    fn stub_paint_buffered<'p>(_p: &mut Painter<'p>)
+    where
+        'p: 'p,
+    {
+    }
+    fn stub_set_syntax<'p>(_p: &mut Painter<'p>, _f: Option<&str>)
+    where
+        'p: 'p,
+    {
+    }
+    fn stub_emit<'p>(_p: &mut Painter<'p>) -> std::io::Result<()>
+    where
+        'p: 'p,
+    {
+        Ok(())
+    }
+    fn stub_relativize(_path: &mut String, _config: &Config) {}
+    fn stub_format(_args: std::fmt::Arguments<'_>) -> String {
+        String::new()
+    }
+    fn stub_delta_unreachable(_m: &str) -> ! {
+        panic!("delta_unreachable reached")
+    }
+    fn stub_state_clone(s: &State) -> State {
+        match s {
+            State::DiffHeader(DiffType::Unified) => State::DiffHeader(DiffType::Unified),
+            State::Unknown => State::Unknown,
+            _ => {
+                assert!(false, "harness: unexpected state");
+                State::Unknown
+            }
+        }
+    }
+
+    #[kani::proof]
+    #[kani::unwind(18)]
+    #[kani::stub(parse_hunk_header, stub_parse_hunk_header)]
+    #[kani::stub(crate::handlers::diff_header::write_generic_diff_header_header_line, stub_write_header)]
+    #[kani::stub(crate::handlers::diff_header::get_file_change_description_from_file_paths, stub_description)]
+    #[kani::stub(crate::paint::Painter::paint_buffered_minus_and_plus_lines, stub_paint_buffered)]
+    #[kani::stub(crate::paint::Painter::set_syntax, stub_set_syntax)]
+    #[kani::stub(crate::paint::Painter::emit, stub_emit)]
+    #[kani::stub(crate::utils::path::relativize_path_maybe, stub_relativize)]
+    #[kani::stub(std::fmt::format, stub_format)]
+    #[kani::stub(crate::config::delta_unreachable, stub_delta_unreachable)]
+    #[kani::stub(<State as std::clone::Clone>::clone, stub_state_clone)]
+    fn c14_diff_u_dashes_inside_hunk() {
+        let mut cfg_mem = MaybeUninit::<Config>::uninit();
+        let cp = cfg_mem.as_mut_ptr();
+        unsafe {
+            addr_of_mut!((*cp).color_only).write(kani::any());
+            addr_of_mut!((*cp).file_style).write(Style::new());
+        }
+        let config: &Config = unsafe { &*cp };
+        let mut sm_mem = MaybeUninit::<StateMachine>::uninit();
+        let sp = sm_mem.as_mut_ptr();
+        unsafe {
+            addr_of_mut!((*sp).line).write(String::new());
+            addr_of_mut!((*sp).raw_line).write(String::new());
+            addr_of_mut!((*sp).state).write(State::Unknown);
+            addr_of_mut!((*sp).source).write(Source::DiffUnified);
+            addr_of_mut!((*sp).minus_file).write(String::new());
+            addr_of_mut!((*sp).plus_file).write(String::new());
+            addr_of_mut!((*sp).minus_file_event).write(FileEvent::NoEvent);
+            addr_of_mut!((*sp).plus_file_event).write(FileEvent::NoEvent);
+            addr_of_mut!((*sp).mode_info).write(String::new());
+            addr_of_mut!((*sp).current_file_pair).write(None);
+            addr_of_mut!((*sp).handled_diff_header_header_line_file_pair).write(None);
+            addr_of_mut!((*sp).config).write(config);
+            // what `consume` does when the input starts with "--- "
+            addr_of_mut!((*sp).minus_line_counter).write(AmbiguousDiffMinusCounter::prepare_to_count());
+            addr_of_mut!((*sp).painter.config).write(config);
+        }
+        let sm: &mut StateMachine = unsafe { &mut *sp };
+        // (the handlers' boolean result only says whether the line was also *emitted*, which
+        // depends on --color-only; whether a line was taken for a header shows in the recorded path)
+        sm.line = "--- a.lua".to_string();
+        let _ = sm.handle_diff_header_minus_line();
+        assert!(sm.minus_file.len() == 5, "the first '--- ' line is the file header: old path recorded");
+        sm.line = "+++ bb.lua".to_string();
+        let _ = sm.handle_diff_header_plus_line();
+        assert!(sm.plus_file.len() == 6, "the '+++ ' line is the file header: new path recorded");
+        // hunk header announcing n removed lines
+        let n: u8 = kani::any();
+        kani::assume(n >= 1 && n <= 3);
+        let mut hdr = *b"@@ -1,N +1,N @@";
+        hdr[6] = b'0' + n;
+        hdr[11] = b'0' + n;
+        sm.line = unsafe { String::from_utf8_unchecked(hdr.to_vec()) };
+        assert!(matches!(sm.handle_hunk_header_line(), Ok(true)), "the hunk header is recognised");
+        // every one of the n removed lines may read "--- something": never a header
+        let mut i = 0;
+        while i < 3 {
+            if i < n {
+                sm.line = "--- xyz".to_string();
+                let r = sm.handle_diff_header_minus_line();
+                assert!(matches!(r, Ok(false)), "a removed line reading '--- ...' inside the hunk is not claimed by the header handler");
+                assert!(sm.minus_file.len() == 5, "a removed line reading '--- ...' inside the hunk is content, also the FIRST line of the hunk: the old path is untouched");
+                sm.minus_line_counter.count_line(); // what handle_hunk_line does for it
+            }
+            i += 1;
+        }
+        sm.line = "--- next.lua".to_string();
+        std::mem::forget(std::mem::replace(&mut sm.state, State::DiffHeader(DiffType::Unified)));
+        let _ = sm.handle_diff_header_minus_line();
+        assert!(sm.minus_file.len() == 8, "after the announced removed lines '--- ' starts the next file");
+        kani::cover!(n == 1, "one removed line");
+        kani::cover!(n == 3, "three removed lines");
+        kani::cover!(true, "end of harness reached");
+    }
+}
